@@ -94,6 +94,7 @@ type pconn struct {
 	ws       bool
 	fragOpen [2]bool
 	fragBuf  [2][]byte
+	srvEOF   int32 // the server side ended its stream (FIN seen) after a FIN kill
 }
 
 type Proxy struct {
@@ -112,6 +113,9 @@ type Proxy struct {
 	hold       func(fi FrameInfo) <-chan struct{}
 	observe    func(fi FrameInfo, payload []byte)
 	throttle   [2]int // bytes per second, 0 = off
+	readThr    [2]int // slow reader: payload bytes per second consumed from the sender, 0 = off
+	torn       []string
+	DrainFor   time.Duration // how long a FIN-killed connection is still read before it is closed (default 2 s)
 	rawCut     *RawFault
 	rawBytes   [2]int64
 	closed     bool
@@ -189,6 +193,36 @@ func (p *Proxy) SetThrottle(d Dir, bps int) {
 	p.throttle[d] = bps
 	p.mu.Unlock()
 }
+// SetReadThrottle makes the proxy a slow reader in direction d: frame payloads are consumed from the
+// sender at about bps bytes per second, so a sender whose message exceeds the socket buffers stays
+// blocked in write(2) for a while (and completes - unlike STALL).
+func (p *Proxy) SetReadThrottle(d Dir, bps int) {
+	p.mu.Lock()
+	p.readThr[d] = bps
+	p.mu.Unlock()
+}
+
+// TornFrames lists connections whose sender ended the stream in the middle of a frame although the
+// proxy had injected nothing on that connection.
+func (p *Proxy) TornFrames() []string {
+	p.mu.Lock()
+	defer p.mu.Unlock()
+	return append([]string(nil), p.torn...)
+}
+
+// ServerEOFs counts FIN-killed connections on which the server has closed its side too.
+func (p *Proxy) ServerEOFs() int {
+	p.mu.Lock()
+	defer p.mu.Unlock()
+	n := 0
+	for _, c := range p.conns {
+		if atomic.LoadInt32(&c.srvEOF) == 1 {
+			n++
+		}
+	}
+	return n
+}
+
 func (p *Proxy) Frames() []FrameInfo {
 	p.mu.Lock()
 	defer p.mu.Unlock()
@@ -361,14 +395,20 @@ func (p *Proxy) kill(pc *pconn, kind string) {
 		rst(pc.c)
 		rst(pc.s)
 	default: // FIN
+		drain := p.DrainFor
+		if drain == 0 {
+			drain = 2 * time.Second
+		}
 		for _, c := range []net.Conn{pc.c, pc.s} {
 			c := c
 			if t, ok := c.(*net.TCPConn); ok {
 				t.CloseWrite()
 			}
 			go func() {
-				c.SetReadDeadline(time.Now().Add(2 * time.Second))
-				io.Copy(io.Discard, c)
+				c.SetReadDeadline(time.Now().Add(drain))
+				if _, err := io.Copy(io.Discard, c); err == nil && c == pc.s {
+					atomic.StoreInt32(&pc.srvEOF, 1) // the server closed its side as well
+				}
 				c.Close()
 			}()
 		}
@@ -592,7 +632,33 @@ func (p *Proxy) frameRelay(pc *pconn, d Dir, src *bufio.Reader, dst net.Conn) {
 			return
 		}
 		payload := make([]byte, plen)
-		if _, err := io.ReadFull(src, payload); err != nil {
+		p.mu.Lock()
+		rthr := p.readThr[d]
+		p.mu.Unlock()
+		var rerr error
+		got := 0
+		if rthr > 0 && plen > 1<<16 {
+			const slice = 1 << 16
+			for got < len(payload) && rerr == nil {
+				end := got + slice
+				if end > len(payload) {
+					end = len(payload)
+				}
+				var n int
+				n, rerr = io.ReadFull(src, payload[got:end])
+				got += n
+				time.Sleep(time.Duration(float64(n) / float64(rthr) * float64(time.Second)))
+			}
+		} else {
+			got, rerr = io.ReadFull(src, payload)
+		}
+		if rerr != nil {
+			if got > 0 && atomic.LoadInt32(&pc.dead) == 0 && atomic.LoadInt32(&pc.black) == 0 {
+				p.mu.Lock()
+				p.torn = append(p.torn, fmt.Sprintf("%s conn %d: the sender ended the stream inside a frame (op=%d, %d of %d payload bytes): %v", d, pc.n, opcode, got, plen, rerr))
+				p.mu.Unlock()
+				core.Log.Note("px.torn", fmt.Sprintf("c%d %s op=%d %d/%d", pc.n, d, opcode, got, plen))
+			}
 			return
 		}
 		if b := atomic.LoadInt32(&pc.black); b == 1 {
